@@ -5,7 +5,7 @@
 //! × 8 attachment levels (+ pairs/triples of separate cfg attributes).
 //! Oracle: the documented rule evaluated on the generator's own AST.
 use crate::explore::{explore, Chooser, Mode};
-use crate::pipeline::{self, Cfg, SrcFile};
+use crate::pipeline::{self, Cfg, Lang, SrcFile};
 use crate::report::{self, Report, VioSet, Violation};
 use serde_json::json;
 use std::collections::BTreeSet;
@@ -458,6 +458,80 @@ fn judge_unsupported_member(exprs: &[E], t: &[&str], shape_of_member: &str, acc:
     }
 }
 
+/// The binary: the target list is what `--target-os` says and nothing else (in particular not a key of a configuration file).
+fn cli_family(rep: &mut Report) {
+    use crate::cli::{self, par_map, run_cli, s, Scratch};
+    if !cli::bin_available() {
+        rep.machinery(format!("hooks-on CLI binary missing at {}", cli::BIN));
+        return;
+    }
+    const SRC: &str = "#[typeshare]\n#[cfg(target_os = \"b\")]\npub struct OnlyB { pub x: u32 }\n#[typeshare]\n#[cfg(not(target_os = \"a\"))]\npub struct NotA { pub x: u32 }\n#[typeshare]\npub struct Plain { pub keep: u32, #[cfg(target_os = \"a\")] pub only_a: u32 }\n";
+    // (flag value, config text, how the config is found)
+    let mut jobs: Vec<(Option<&'static str>, Option<&'static str>, &'static str, Lang)> = Vec::new();
+    for flag in [None, Some("a"), Some("b"), Some("a,b")] {
+        for config in [None, Some("target_os = [\"a\"]\n"), Some("target_os = [\"b\"]\n[swift]\nprefix = \"\"\n"), Some("[typescript.type_mappings]\nDateTime = \"Date\"\n")] {
+            for via in ["-c", "cwd"] {
+                if config.is_none() && via == "cwd" {
+                    continue;
+                }
+                for lang in [Lang::TypeScript, Lang::Swift] {
+                    jobs.push((flag, config, via, lang));
+                }
+            }
+        }
+    }
+    let results = par_map(&jobs, report::threads(), |(flag, config, via, lang)| {
+        let sc = Scratch::new("c13c");
+        sc.write("ws/app/src/lib.rs", SRC.as_bytes());
+        sc.mkdir("out");
+        sc.mkdir("proj");
+        let mut args = cli::lang_args(*lang);
+        if let Some(f) = *flag {
+            // (the option takes one or more values, up to the next option)
+            args.push(s("--target-os"));
+            args.extend(f.split(',').map(s));
+        }
+        let mut cwd = sc.root.clone();
+        if let Some(c) = *config {
+            if *via == "-c" {
+                let p = sc.write("elsewhere/custom.toml", c.as_bytes());
+                args.extend([s("-c"), p.to_string_lossy().into_owned()]);
+            } else {
+                sc.write("proj/typeshare.toml", c.as_bytes());
+                cwd = sc.path("proj");
+            }
+        }
+        let out = sc.path(&format!("out/types.{}", lang.ext()));
+        args.extend([s("-o"), out.to_string_lossy().into_owned(), sc.path("ws").to_string_lossy().into_owned()]);
+        let r = run_cli(&args, &cwd, &[], cli::TIMEOUT);
+        (r.class(), r.stderr.chars().take(400).collect::<String>(), std::fs::read_to_string(&out).unwrap_or_default(), args)
+    });
+    let mut judged = 0u64;
+    for ((flag, config, via, lang), (class, stderr, text, argv)) in jobs.iter().zip(results.iter()) {
+        let t: Vec<&str> = flag.map(|f| f.split(',').collect()).unwrap_or_default();
+        let toks: BTreeSet<&str> = text.split(|c: char| !c.is_alphanumeric() && c != '_').collect();
+        let expect = [
+            ("OnlyB", keep(&[E::Os("b")], &t).0),
+            ("NotA", keep(&[E::Not(Box::new(E::Os("a")))], &t).0),
+            ("Plain", true),
+            ("only_a", keep(&[E::Os("a")], &t).0),
+        ];
+        for (name, want) in expect {
+            judged += 1;
+            let got = toks.contains(name);
+            if *class != "ok" || got != want {
+                rep.vios.add(Violation {
+                    sig: format!("C13|cli|{}|flag={}|config-file={}|via={via}|item={name}|expected={}|observed={}", lang.name(), flag.unwrap_or("absent"), match config { None => "none", Some(c) if c.starts_with("target_os") => "has-a-target_os-key", Some(_) => "other-keys-only" }, if want { "kept" } else { "dropped" }, if *class != "ok" { class } else if got { "kept" } else { "dropped" }),
+                    detail: json!({"argv": argv, "config_file": config, "found_via": via, "source": SRC, "stderr": stderr, "output": text}),
+                });
+            }
+        }
+    }
+    rep.cov("cli_target_list_comes_from_the_flag_only", json!({"process_runs": jobs.len(), "flag_values": ["absent", "a", "b", "a,b"], "config_files": ["none", "target_os = [a]", "target_os = [b] + other keys", "other keys only"], "found_via": ["-c", "working directory"], "languages": ["typescript", "swift"], "judgements": judged}));
+    rep.cov_add("evaluations", judged);
+    rep.cov_add("traces_validated_against_impl", jobs.len() as u64);
+}
+
 fn merge(rep: &mut Report, name: &str, accs: Vec<Acc>, stats: crate::explore::ExploreStats, extra: serde_json::Value) {
     let mut inputs = 0u64;
     let mut nontrivial = 0u64;
@@ -712,6 +786,7 @@ pub fn run(args: &[String]) -> i32 {
         );
         merge(&mut rep, "single_attribute_depth4_reduced", accs, stats, json!({"expr_depth": 4, "leaves": 3, "target_lists": 7, "levels": 10}));
     }
+    cli_family(&mut rep);
     rep.cov("exhaustive", json!(true));
     rep.cov("rule", json!("every cfg expression of the grammar up to the stated depth × every target list × 8 attachment levels, each parsed by the real parser::parse with ParseContext.target_os; non-trivial = the expression names at least one target_os and the target list is non-empty; distinct by (attribute text, target list, level) — each such triple is generated exactly once by the enumeration, so the count is a plain counter. states = distinct cfg attribute sets, transitions = explorer choice points"));
     rep.assume("the documented rule is taken from the property statement / docs/src/usage/target_os.md and evaluated on the generator's AST");
